@@ -1333,3 +1333,32 @@ func (c *Ctx) originLeaves(fn *ssa.Function, v ssa.Value) []originLeaf {
 	walk(fn, v, 0, nil)
 	return out
 }
+
+// nearPos: a source position for an instruction that may have none (jumps, phis): the first
+// positioned instruction of its block, else of a predecessor's branch.
+func (c *Ctx) nearPos(in ssa.Instruction) string {
+	if in == nil {
+		return "-"
+	}
+	if in.Pos().IsValid() {
+		return c.W.Pos(in.Pos())
+	}
+	for _, x := range in.Block().Instrs {
+		if x.Pos().IsValid() {
+			return c.W.Pos(x.Pos())
+		}
+	}
+	for _, p := range in.Block().Preds {
+		for i := len(p.Instrs) - 1; i >= 0; i-- {
+			if ifi, ok := p.Instrs[i].(*ssa.If); ok {
+				if v, ok := ifi.Cond.(ssa.Instruction); ok && v.Pos().IsValid() {
+					return "the branch at " + c.W.Pos(v.Pos())
+				}
+			}
+			if p.Instrs[i].Pos().IsValid() {
+				return c.W.Pos(p.Instrs[i].Pos())
+			}
+		}
+	}
+	return "the loop header"
+}
